@@ -174,17 +174,21 @@ package gogen
 //@ ensures result == p
 
 //@ func insertParams
-//@ prop C16
-//@ readonly
-//@ requires scope != nil
-//@ loop 0 invariant 0 <= i
+//@ prop C16 C09
+//@ trustedframe
+//@ requires scope != nil && pkg != nil && pkg.names != nil
+//@ assigns map(pkg.names)
+//@ loop 0 invariant 0 <= i && i <= n && n == params.Len() && sforall(k, imp(old(in(pkg.names, k)), in(pkg.names, k))) && forall(j, 0, i, imp(params.At(j).Name() != "" && params.At(j).Name() != "_", in(pkg.names, params.At(j).Name())))
+//@ ensures sforall(k, imp(old(in(pkg.names, k)), in(pkg.names, k)))
+//@ ensures forall(j, 0, params.Len(), imp(params.At(j).Name() != "" && params.At(j).Name() != "_", in(pkg.names, params.At(j).Name())))
 
 //@ func (*CodeBuilder).startFuncBody
 //@ prop C16 C09 C10
 //@ requires fn != nil && fn.Func != nil && old != nil && addr(old.codeBlockCtx) != addr(p.current.codeBlockCtx) && old != addr(p.current)
 //@ requires imp(src != nil, len(src) >= 1 && src[0] != nil)
 //@ requires typeis(fn.Type(), *types.Signature) && fn.Type().(*types.Signature).Params() != nil && fn.Type().(*types.Signature).Results() != nil
-//@ assigns p.current, *old
+//@ requires p.pkg != nil && p.pkg.names != nil
+//@ assigns p.current, *old, map(p.pkg.names)
 //@ ensures old.fn == old(p.current.fn) && old.labels == old(p.current.labels) && old.panicCalls == old(p.current.panicCalls)
 //@ ensures old.codeBlockCtx == old(p.current.codeBlockCtx)
 //@ ensures p.current.fn == fn && p.current.labels == nil && p.current.panicCalls == nil
@@ -192,6 +196,8 @@ package gogen
 //@ ensures p.current.scope != nil && p.current.scope.Parent() == old(p.current.scope)
 //@ ensures result == p
 //@ ensures[C09] forall(i, 0, fn.Type().(*types.Signature).Params().Len(), imp(fn.Type().(*types.Signature).Params().At(i).Name() != "" && fn.Type().(*types.Signature).Params().At(i).Name() != "_", in(p.pkg.names, fn.Type().(*types.Signature).Params().At(i).Name())))
+//@ ensures[C09] forall(i, 0, fn.Type().(*types.Signature).Results().Len(), imp(fn.Type().(*types.Signature).Results().At(i).Name() != "" && fn.Type().(*types.Signature).Results().At(i).Name() != "_", in(p.pkg.names, fn.Type().(*types.Signature).Results().At(i).Name())))
+//@ ensures[C09] sforall(k, imp(old(in(p.pkg.names, k)), in(p.pkg.names, k)))
 
 //@ func (*funcBodyCtx).checkLabels
 //@ prop C10
